@@ -27,6 +27,33 @@ Theorem C04_function_candidate :
                      fmt_list (pkgo_attach fs AKFunc p "" fn) |}, None).
 Proof. intros fs cur curname p fn pos c. exact (pkgo_func_cand_spec fs cur curname (fun _ _ => false) p fn pos c). Qed.
 
+Theorem C04_type_candidate :
+  forall fs cur curname p tn pos c,
+    In c (pkgo_type_cand fs cur curname p tn pos) <->
+    p <> cur /\ pkgo_denied cur curname (pkgo_attach fs AKType p "" tn) /\
+    c = ({| d_pos := pos; d_code := "PKGO01";
+            d_msg := tn ++ " type is @packageonly and cannot be used from " ++ cur ++ ". Allowed packages: " ++
+                     fmt_list (pkgo_attach fs AKType p "" tn) |}, Some (p, tn)).
+Proof. intros fs cur curname p tn pos c. exact (pkgo_type_cand_spec fs cur curname (fun _ _ => false) p tn pos c). Qed.
+
+Theorem C04_method_candidate :
+  forall fs cur curname p recv mn pos c,
+    In c (pkgo_method_cand fs cur curname p recv mn pos) <->
+    p <> cur /\ pkgo_denied cur curname (pkgo_attach fs AKMethod p recv mn) /\
+    c = ({| d_pos := pos; d_code := "PKGO03";
+            d_msg := recv ++ "." ++ mn ++ " method is @packageonly and cannot be used from " ++ cur ++ ". Allowed packages: " ++
+                     fmt_list (pkgo_attach fs AKMethod p recv mn) |}, None).
+Proof. intros fs cur curname p recv mn pos c. exact (pkgo_method_cand_spec fs cur curname (fun _ _ => false) p recv mn pos c). Qed.
+
+(* which nodes produce candidates at all *)
+Theorem C04_candidate_nodes :
+  forall fs cur curname n c,
+    In c (pkgo_cands fs cur curname n) <->
+    exists o p, a_obj (n_attrs n) = Some o /\ o_pkg o = Some p /\
+                ((n_kind n = KSelectorExpr /\ p <> cur /\ In c (pkgo_obj_cand fs cur curname o p (n_pos n))) \/
+                 (n_kind n = KIdent /\ p = cur /\ In c (pkgo_obj_cand fs cur curname o cur (n_pos n)))).
+Proof. intros fs cur curname n c. exact (pkgo_cands_spec fs cur curname n c). Qed.
+
 Theorem C04_denied :
   forall cur curname att, pkgo_denied cur curname att <-> att <> [] /\ ~ In cur att /\ ~ In curname att.
 Proof. intros. unfold pkgo_denied. reflexivity. Qed.
@@ -70,6 +97,9 @@ Proof. vm_compute. repeat split; reflexivity. Qed.
 
 Print Assumptions C04_union.
 Print Assumptions C04_function_candidate.
+Print Assumptions C04_type_candidate.
+Print Assumptions C04_method_candidate.
+Print Assumptions C04_candidate_nodes.
 Print Assumptions C04_denied.
 Print Assumptions C04_file.
 Print Assumptions C04_own_package_never.
